@@ -12,6 +12,8 @@ mod chan;
 mod script;
 mod routerrole;
 mod oneshot;
+mod fifo;
+mod nrecv;
 #[cfg(feature = "async")]
 mod asyncrole;
 
@@ -51,6 +53,9 @@ fn main() {
         "router" => routerrole::run(),
         "oneshot" => oneshot::run(args.get(2).map(|s| s.as_str()).unwrap_or("thread")),
         "oneshot-client" => oneshot::client_main(),
+        "nrecv" => nrecv::run(),
+        "fifo" => fifo::run(),
+        "fifo-child" => fifo::child_main(&args[2..]),
         #[cfg(feature = "async")]
         "async" => asyncrole::run(),
         _ => {
